@@ -12,11 +12,10 @@ EXTENDS Registry, IOUtils
 Traces == JsonDeserialize(IOEnv.TRACES)
 VARIABLES tid, l, ruser, redit, sync
 tvars == <<vars, tid, l, ruser, redit, sync>>
-KeySeq == <<"foo", "qux", "kfoo", "kqux">>
 KeyIdx(k) == CHOOSE i \in DOMAIN KeySeq : KeySeq[i] = k
 ProbeIdx(p) == CHOOSE i \in DOMAIN ProbeSeq : ProbeSeq[i] = p
 
-TraceInit == Init /\ tid = 1 /\ l = 1 /\ ruser = [s \in Keys |-> Absent] /\ redit = [s \in Keys |-> "none"] /\ sync = TRUE
+TraceInit == Init /\ tid = 1 /\ l = 1 /\ ruser = InitTable /\ redit = [s \in Keys |-> "none"] /\ sync = TRUE
 
 Ev == Traces[tid].ev[l]
 StepAction(e) ==
@@ -66,20 +65,37 @@ PFail == {p \in Probes : Final.probes[ProbeIdx(p)] # RefResolve(ruser, p)}
 PReport ==
   /\ \A p \in PFail :
        PrintT(ToJson([tag |-> "P-FAIL", tid |-> tid, clause |-> "C12_Fresh", probe |-> p,
-                      layer |-> RLayer(p),
+                      layer |-> RLayer(p), spelling |-> Spelling(p), via |-> "Unit() at end",
                       edit |-> RLastEdit(p), kind |-> ProbeKind(p),
                       observed |-> Final.probes[ProbeIdx(p)], expected |-> RefResolve(ruser, p)]))
-  /\ (~Final.kept => PrintT(ToJson([tag |-> "P-FAIL", tid |-> tid, clause |-> "C12_Keep", probe |-> "", layer |-> "", edit |-> "", kind |-> "object", observed |-> Final.keptdetail, expected |-> ""])))
+  /\ (~Final.kept => PrintT(ToJson([tag |-> "P-FAIL", tid |-> tid, clause |-> "C12_Keep", probe |-> "", layer |-> "", edit |-> "", kind |-> "object", spelling |-> "", via |-> "", observed |-> Final.keptdetail, expected |-> ""])))
   /\ (Final.arith # <<>> => \A i \in DOMAIN Final.arith :
         LET a == Final.arith[i]
             want == RefResolve(ruser, a.p)
             got == a.obs IN
-        (got # want) => PrintT(ToJson([tag |-> "P-FAIL", tid |-> tid, clause |-> "C12_HistoryFree", probe |-> a.p, layer |-> RLayer(a.p), via |-> a.via,
+        (got # want) => PrintT(ToJson([tag |-> "P-FAIL", tid |-> tid, clause |-> "C12_HistoryFree", probe |-> a.p, layer |-> RLayer(a.p), via |-> a.via, spelling |-> Spelling(a.p),
                       edit |-> RLastEdit(a.p), kind |-> ProbeKind(a.p), observed |-> got, expected |-> want])))
+
+\* P on every observed construction step (not only at the end of the trace): the unit the call returned, and the
+\* unit the same string resolves to through the conversion entry points (x.to(str), x.convert_to_units(str)) at that
+\* moment, are what a fresh registry with the current contents resolves  (C12_Fresh / C12_HistoryFree per step)
+StepLayer(e, p) == IF \E i \in DOMAIN Atoms(p) : LET a == Atoms(p)[i] IN IsPrefixed(a) /\ ruser[a].scale = 0 /\ ObsRow(e, a)[1] # 0
+                   THEN "lutrow" ELSE "ucache"
+StepP(e) ==
+  e.op = "unit" =>
+    LET want == RefResolve(ruser, e.str) IN
+    /\ (e.obs # want) => PrintT(ToJson([tag |-> "P-FAIL", tid |-> tid, clause |-> "C12_Fresh", probe |-> e.str, layer |-> StepLayer(e, e.str),
+                                          edit |-> RLastEdit(e.str), kind |-> ProbeKind(e.str), spelling |-> Spelling(e.str), via |-> "Unit() at step",
+                                          observed |-> e.obs, expected |-> want]))
+    /\ \A i \in DOMAIN e.via : (e.via[i].obs # want) =>
+          PrintT(ToJson([tag |-> "P-FAIL", tid |-> tid, clause |-> "C12_HistoryFree", probe |-> e.str, layer |-> StepLayer(e, e.str),
+                         edit |-> RLastEdit(e.str), kind |-> ProbeKind(e.str), spelling |-> Spelling(e.str), via |-> e.via[i].via,
+                         observed |-> e.via[i].obs, expected |-> want]))
 
 TraceNext ==
   \/ /\ tid <= Len(Traces) /\ l <= Len(Traces[tid].ev)
      /\ StepAction(Ev)
+     /\ StepP(Ev)
      /\ ruser' = RUser(Ev) /\ redit' = REdit(Ev)
      /\ sync' = (sync /\ TOk(Ev))
      /\ (sync /\ ~TOk(Ev)) => PrintT(ToJson([tag |-> "T-FAIL", tid |-> tid, l |-> l, op |-> Ev.op, model |-> last', observed |-> Ev.obs,
@@ -88,9 +104,9 @@ TraceNext ==
   \/ /\ tid <= Len(Traces) /\ l > Len(Traces[tid].ev)
      /\ PReport
      /\ tid' = tid + 1 /\ l' = 1
-     /\ user' = [s \in Keys |-> Absent] /\ lut' = [s \in Keys |-> Absent] /\ ucache' = [p \in Probes |-> None]
+     /\ user' = InitTable /\ lut' = InitTable /\ ucache' = [p \in Probes |-> None]
      /\ edit' = [s \in Keys |-> "none"] /\ hist' = <<>> /\ last' = None
-     /\ ruser' = [s \in Keys |-> Absent] /\ redit' = [s \in Keys |-> "none"] /\ sync' = TRUE
+     /\ ruser' = InitTable /\ redit' = [s \in Keys |-> "none"] /\ sync' = TRUE
 TraceSpec == TraceInit /\ [][TraceNext]_tvars
 \* acceptance: every line of every trace was consumed
 Consumed == TLCGet("stats").distinct
